@@ -11,8 +11,10 @@ step a fingerprint is taken: parameters / buffers (bitwise), `.training` of ever
 coefficients, position of torch's global RNG, requires_grad, and — on deep copies, RNG re-seeded — every
 cost value, summary(), structural hash of export(), output on a fixed batch.
 
-Oracle (on the implementation): an observer changes no fingerprint component; its result equals the probe
-taken before it; a history and the same history with the observers erased end in the same fingerprint and
+Oracle (on the implementation): an observer changes no fingerprint component (flags are compared module by
+module: start states with mixed flags and a 'flip the flags of sub-set S' op are part of the enumeration); its
+result — network, summary, every cost value — equals the probe taken before it (get_cost(a) / get_cost(b) are
+read in both orders in different histories); a history and the same history with the observers erased end in the same fingerprint and
 give the same forward outputs; switching the specification back restores the cost values.
 Correspondence: the abstract state predicted by the Coq model after every step of every enumerated
 history (flags, RNG position, parameter / buffer / coefficient provenance, specification, error
@@ -244,10 +246,12 @@ def plan(ctx):
 def run(ctx):
     built = ctx.build()
     tasks = plan(ctx)
-    ctx.rule = ('every op sequence over the alphabet up to the stated depth on each of 20 configurations (method x sampler x full_cost x train/eval), each run from scratch '
-                'on one freshly built live object + seeded length-5 histories; quick: full alphabet (10 ops; 11 on PIT) depth 2 on all '
-                'configurations, depth 3 on 3; thorough: full depth 3 on the 10 training configurations (2 on the eval ones), 7-op alphabet depth 4 on 6, 5-op alphabet depth 5 on 3 (PIT, MPS-Gumbel, SuperNet-Gumbel, training, full_cost); '
-                'a case = one history; non-trivial = it contains an observer call; distinct = distinct (configuration, history)')
+    ctx.rule = ('every op sequence up to the stated depth over the alphabet {export, export(add_bn=False) [PIT], summary, cost, get_cost(a), get_cost(b), set spec dict / single, '
+                'forward, search step, flip the flags of the sub-set S} on 20 configurations (method x sampler x train/eval x {full_cost + dict specification + uniform flags | '
+                'nas cost + single specification + MIXED flags: BatchNorm/Dropout/samplers opposite to the wrapper}) + 3 training configurations with full_cost, dict specification '
+                '(2 of them with mixed flags); every history runs from scratch on one freshly built live object; + seeded length-5 histories (random sub-set S, random mixed start, '
+                'random initial specification). quick: depth 2 on the 20, depth 3 on the 3; thorough: depth 3 on training / 2 on eval configurations, 8-op alphabet depth 4 on 4, '
+                '5-op alphabet depth 5 on 3; a case = one history; non-trivial = it contains an observer call; distinct = distinct (configuration, history)')
     tasks.sort(key=lambda t: -(len(ALPH[t[2]]) ** (t[3] - 1) if t[0] == 'dfs' else 1))
     mp = multiprocessing.get_context('fork')
     groups = {}     # (cfg key, kind) -> (cfg, dict path -> (obs, fp))
@@ -291,7 +295,7 @@ def run(ctx):
     model_ok = built
     if built:
         try:
-            exprs = ['run_trace_t fixed %s %s %s [%s]' % (coq_cfg(c), coq(c['train']), coq(bool(c.get('mixed'))), SPEC_COQ[c['spec0']], '; '.join(coq_op(o) for o in tuple(c.get('prefix', ())) + path))
+            exprs = ['run_trace_t fixed %s %s %s %s [%s]' % (coq_cfg(c), coq(c['train']), coq(bool(c.get('mixed'))), SPEC_COQ[c['spec0']], '; '.join(coq_op(o) for o in tuple(c.get('prefix', ())) + path))
                      for c, _, path in leaves]
             vals = ctx.coq_eval_sharded('cases', ['Plinio.Model.Observers'], '', exprs, shard=500)
             for (c, nodes, path), mres in zip(leaves, vals):
